@@ -494,3 +494,132 @@ def run_guarded(fn):
         print("ANALYSIS-ERROR: internal error in checker (traceback above)")
         sys.exit(2)
     sys.exit(rc)
+
+
+def inline_helpers(repo, rel, func, max_rounds=3):
+    """A copy of `func` in which calls `name = helper(args)` / `return helper(args)` of module-level helper functions of the same
+    file are replaced by the helper's body, when that body is straight-line code (assignments, docstring, assert) ending in a
+    single return, the helper is not recursive and all arguments are passed positionally or by keyword to plain parameters.
+    Parameters are bound to fresh locals, the helper's own locals are renamed apart.  Line numbers of the call site are kept, and
+    `_parent` links are set, so that path / dominance analyses run on the result as on a repository function.  Used to make
+    rules robust against "extract helper" refactorings: the analysed function is the same whether or not the helper exists."""
+    mod = repo.tree(rel)
+    helpers = {n.name: n for n in mod.body if isinstance(n, ast.FunctionDef)}
+    src = ast.unparse(func)
+    new = ast.parse(src).body[0]
+    # keep the original line numbers as far as statements correspond (unparse / parse keeps statement order)
+    for a, b in zip(ast.walk(func), ast.walk(new)):
+        if hasattr(a, "lineno") and hasattr(b, "lineno") and type(a) is type(b):
+            b.lineno, b.col_offset = a.lineno, a.col_offset
+            b.end_lineno, b.end_col_offset = getattr(a, "end_lineno", a.lineno), getattr(a, "end_col_offset", a.col_offset)
+    counter = [0]
+
+    def simple(h):
+        body = [st for st in h.body if not (isinstance(st, ast.Expr) and isinstance(st.value, ast.Constant))]
+        if not body or not isinstance(body[-1], ast.Return) or body[-1].value is None:
+            return None
+        for st in body[:-1]:
+            if not isinstance(st, (ast.Assign, ast.AnnAssign, ast.AugAssign, ast.Assert)):
+                return None
+        if any(isinstance(x, (ast.Return, ast.Yield, ast.YieldFrom, ast.Lambda, ast.FunctionDef)) for st in body[:-1] for x in ast.walk(st)):
+            return None
+        if h.args.vararg or h.args.kwarg or h.args.posonlyargs:
+            return None
+        return body
+
+    def expand(call, lineno):
+        h = helpers.get(call.func.id) if isinstance(call.func, ast.Name) else None
+        if h is None or h.name == func.name or any(isinstance(x, ast.Call) and isinstance(x.func, ast.Name) and x.func.id == h.name for x in ast.walk(h)):
+            return None
+        body = simple(h)
+        if body is None:
+            return None
+        params = [a.arg for a in h.args.args] + [a.arg for a in h.args.kwonlyargs]
+        defaults = dict(zip([a.arg for a in h.args.args][len(h.args.args) - len(h.args.defaults):], h.args.defaults))
+        defaults.update({a.arg: d for a, d in zip(h.args.kwonlyargs, h.args.kw_defaults) if d is not None})
+        bound = {}
+        if len(call.args) > len(h.args.args) or any(isinstance(a, ast.Starred) for a in call.args) or any(k.arg is None for k in call.keywords):
+            return None
+        for p_, a in zip([a.arg for a in h.args.args], call.args):
+            bound[p_] = a
+        for k in call.keywords:
+            if k.arg not in params or k.arg in bound:
+                return None
+            bound[k.arg] = k.value
+        for p_ in params:
+            if p_ not in bound:
+                if p_ not in defaults:
+                    return None
+                bound[p_] = defaults[p_]
+        counter[0] += 1
+        tag = f"__{h.name}_{counter[0]}"
+        local = set(params)
+        for st in body:
+            for x in ast.walk(st):
+                if isinstance(x, ast.Name) and isinstance(x.ctx, ast.Store):
+                    local.add(x.id)
+                elif isinstance(x, ast.comprehension):
+                    for y in ast.walk(x.target):
+                        if isinstance(y, ast.Name):
+                            local.add(y.id)
+        # an argument that is a plain name (or constant) is substituted directly: facts about it stay facts about the caller's variable
+        mapping = {}
+        pre = []
+        for p_ in params:
+            a = bound[p_]
+            reassigned = any(isinstance(x, ast.Name) and isinstance(x.ctx, ast.Store) and x.id == p_ for st in body for x in ast.walk(st))
+            if isinstance(a, ast.Name) and not reassigned:
+                mapping[p_] = a.id
+            else:
+                mapping[p_] = p_ + tag
+                pre.append(ast.Assign(targets=[ast.Name(id=p_ + tag, ctx=ast.Store())], value=fresh_copy(a)))
+        for nm in local - set(params):
+            mapping[nm] = nm + tag
+        out = list(pre)
+        for st in body[:-1]:
+            out.append(_Renamer(mapping).visit(fresh_copy(st)))
+        ret = _Renamer(mapping).visit(fresh_copy(body[-1].value))
+        for st in out + [ret]:
+            for x in ast.walk(st):
+                x.lineno = x.end_lineno = lineno
+                x.col_offset = x.end_col_offset = 0
+        return out, ret
+
+    def rewrite(stmts):
+        changed = False
+        res = []
+        for st in stmts:
+            for fld in ("body", "orelse", "finalbody"):
+                sub = getattr(st, fld, None)
+                if isinstance(sub, list) and sub and isinstance(sub[0], ast.stmt):
+                    new_sub, ch = rewrite(sub)
+                    setattr(st, fld, new_sub)
+                    changed |= ch
+            for h_ in getattr(st, "handlers", []) or []:
+                h_.body, ch = rewrite(h_.body)
+                changed |= ch
+            target_call = None
+            if isinstance(st, ast.Assign) and isinstance(st.value, ast.Call):
+                target_call = st.value
+            elif isinstance(st, ast.Return) and isinstance(st.value, ast.Call):
+                target_call = st.value
+            if target_call is not None:
+                ex = expand(target_call, getattr(st, "lineno", 0))
+                if ex is not None:
+                    pre, ret = ex
+                    res.extend(pre)
+                    st.value = ret
+                    changed = True
+            res.append(st)
+        return res, changed
+
+    for _ in range(max_rounds):
+        new.body, ch = rewrite(new.body)
+        if not ch:
+            break
+    ast.fix_missing_locations(new)
+    for parent in ast.walk(new):
+        for child in ast.iter_child_nodes(parent):
+            child._parent = parent
+    new._parent = getattr(func, "_parent", None)
+    return new
